@@ -23,6 +23,8 @@ import (
 // plaintext unless the reference decryption does too; a mutated G1 point is
 // accepted exactly when it is still a canonical point of the curve. Identity
 // mutants are skipped. A round is rebuilt deterministically from (seed, round).
+// Per round three more cases present the UNREDUCED ALIASES of every integer and
+// field element the consumers decode (alias.go).
 
 const chunkPositions = 16
 
@@ -219,6 +221,7 @@ func sound(x *mon.Ctx) {
 			}
 			c.End()
 		}
+		aliasCases(x, id)
 		for _, a := range soundArtefacts(id) {
 			for lo := 0; lo < a.size; lo += chunkPositions {
 				hi := min(lo+chunkPositions, a.size)
@@ -469,12 +472,19 @@ func modeOf(name string) (ref.Mode, bool) {
 
 func sweepCipher(c *mon.Case, rd *roundData, name, kind string, m, orig []byte) {
 	mode, asn1 := modeOf(name)
-	msg := rd.msgs[name]
+	judgeCipher(c, rd, name, mode, asn1, rd.msgs[name], kind, m)
+}
+
+// judgeCipher presents an altered ciphertext m (the honest one encrypts msg for the
+// round's user in the given mode and encoding) to the matching decrypt entry point
+// and decides it as described at the top of this file. It returns the verdict:
+// "refused", "same-plaintext", "valid-by-reference", "violation" or "panic".
+func judgeCipher(c *mon.Case, rd *roundData, name string, mode ref.Mode, asn1 bool, msg []byte, kind string, m []byte) string {
 	var got []byte
 	var err error
 	if asn1 {
 		if !c.Call("DecryptASN1("+kind+")", func() { got, err = sm9.DecryptASN1(rd.euk, rd.uid, m) }) {
-			return
+			return "panic"
 		}
 	} else {
 		p := mon.Try(func() { got, err = sm9.Decrypt(rd.euk, rd.uid, m, optsOf(mode)) })
@@ -483,20 +493,20 @@ func sweepCipher(c *mon.Case, rd *roundData, name, kind string, m, orig []byte) 
 				// sm9.Decrypt slices ciphertext[:64] / [64:][:32] without a length check: a
 				// hostile-input panic that property C13 decides; here it counts as "not accepted"
 				c.Event("raw_ciphertext_below_96_bytes_panics(C13)", 1)
-				return
+				return "refused"
 			}
 			c.Detail("stack", p.Stack)
 			c.Fail("panic", "Decrypt(%s, %d bytes): panic: %v", kind, len(m), p.Value)
-			return
+			return "panic"
 		}
 	}
 	if err != nil {
 		c.Event("mutants_refused", 1)
-		return
+		return "refused"
 	}
 	if bytes.Equal(got, msg) {
 		c.Event("mutants_decrypting_to_same_plaintext", 1)
-		return
+		return "same-plaintext"
 	}
 	// another plaintext without an error: only legitimate if the reference decryption agrees
 	var c1, c3, c2 []byte
@@ -516,10 +526,11 @@ func sweepCipher(c *mon.Case, rd *roundData, name, kind string, m, orig []byte) 
 	if ok && ref.OnCurveG1(c1) {
 		if want, wok, _ := ref.Open(md, c1, c3, c2, modelW(c1, rd.euk.Bytes()[1:]), rd.uid); wok && bytes.Equal(want, got) {
 			c.Event("mutants_accepted_also_valid_by_reference/"+name+"/"+kind, 1)
-			return
+			return "valid-by-reference"
 		}
 	}
 	c.Fail("accept", "%s: altered ciphertext (%s) decrypts without error to ANOTHER plaintext %x (honest plaintext %x; altered %x)", name, kind, got, msg, m)
+	return "violation"
 }
 
 // wrongContext presents honest artefacts with a wrong identity, hid, message or key.
